@@ -43,10 +43,15 @@ fn flip(h: &Hash, p: usize) -> Hash {
 /// Byte positions flipped in 32-byte fields.
 pub fn positions(thorough: bool) -> Vec<usize> {
     if thorough {
-        (0..32).collect()
+        vec![0, 7, 16, 31]
     } else {
         vec![0, 31]
     }
+}
+
+/// All 32 byte positions (replay mode).
+pub fn all_positions() -> Vec<usize> {
+    (0..32).collect()
 }
 
 fn bytes_variants(b: &[u8]) -> Vec<(&'static str, String, Vec<u8>)> {
